@@ -331,6 +331,14 @@ def gen_pair(rng, kind, n, cplx):
     if kind == "identical":
         rho = rand_state(rng, n, int(rng.integers(1, n + 1)), cplx)
         return rho, rho
+    if kind == "nearly-pure":
+        # full-rank but within 2^-m of a pure state: a shortcut that treats "numerically pure" states as pure is wrong here
+        psi = rand_state(rng, n, 1, cplx)
+        full = rand_state(rng, n, n, cplx)
+        eps = Fraction(1, 1 << int(rng.choice([17, 18, 20])))
+        a = mix([psi, full], [1 - eps, eps])
+        b = rand_state(rng, n, int(rng.integers(2, n + 1)), cplx)
+        return (a, b) if rng.integers(2) else (b, a)
     raise ValueError(kind)
 
 
@@ -966,7 +974,7 @@ def corpus_pairs():
     return out
 
 
-KINDS = ["random", "random", "fullrank", "fullrank", "pure", "pure-mixed", "commuting", "orthogonal", "near", "identical"]
+KINDS = ["random", "random", "fullrank", "fullrank", "pure", "pure-mixed", "commuting", "orthogonal", "near", "identical", "nearly-pure"]
 
 
 def gen_tasks(rng, n_pairs, prs=None):
